@@ -9,6 +9,7 @@ import BV.Model.Code93
 import BV.Model.Codabar
 import BV.Model.Twooffive
 import BV.Model.Code128
+import BV.OpsMisc
 namespace BV.Ops
 open BV BV.Proto
 
@@ -82,7 +83,7 @@ def miscOp (f : List String) : Option String :=
     pure (match Model.Twooffive.addCheckSum c with
       | some s => "ok str=" ++ toHexField s
       | none => "rej")
-  | _ => none
+  | _ => OpsMisc.miscOp f
 
 def execOp (line : String) : String :=
   let f := (line.splitOn " ").filter (· ≠ "")
